@@ -3420,3 +3420,163 @@ def evx(m, run):
                 raise AnalysisError('%s: interpreter met an unsupported construct: %s' % (key, ex))
             run.ob('EVX.point-evaluation-exact', key, why is None, 'every sample is the tensor-product sum%s, listed u-major' % (' over the weight sum' if rat else '') if why is None else why,
                    'geomdl/evaluators.py:%d in %s' % (fi.node.lineno, fi.key))
+
+
+# ====================================================================================== C03: basis functions as exact polynomials
+def bf3(m, run):
+    """BF3: the basis-function routines interpreted on exact rational knot vectors with the parameter a symbolic atom t ranging over the
+    interior of one knot span (order comparisons of t with knots are decided by that interval, arithmetic is exact): on every non-empty
+    span of every enumerated knot vector, basis_function / basis_function_all / basis_function_one return the Cox-de Boor polynomials
+    N_{i,d}(t) (computed here by the defining recursion), which sum to one; basis_function_ders / basis_function_ders_one return their
+    exact derivatives d^r N / dt^r for every order up to degree + 1 (zero above the degree); the list variants map the single ones"""
+    from fractions import Fraction as F
+    from .skel import Sym
+    from .poly import Poly
+    T = Poly.atom('t')
+
+    def cdb(kv, p):
+        """N[d][i] polynomial pieces are span dependent: returns function (i, d, k) -> Poly on span k"""
+        memo = {}
+
+        def N(i, d, k):
+            key = (i, d, k)
+            if key in memo:
+                return memo[key]
+            if d == 0:
+                r = Poly.const(1) if i == k else Poly()
+            else:
+                r = Poly()
+                den1 = kv[i + d] - kv[i]
+                if den1 != 0:
+                    r = r + (T - kv[i]) * N(i, d - 1, k) * (1 / F(den1))
+                den2 = kv[i + d + 1] - kv[i + 1]
+                if den2 != 0:
+                    r = r + (Poly.const(kv[i + d + 1]) - T) * N(i + 1, d - 1, k) * (1 / F(den2))
+            memo[key] = r
+            return r
+        return N
+    nets = [(1, [F(0), F(0), F(1, 2), F(1), F(1)]),
+            (2, [F(0)] * 3 + [F(1, 3), F(2, 3)] + [F(1)] * 3),
+            (3, [F(0)] * 4 + [F(1, 4), F(1, 2), F(1, 2), F(3, 4)] + [F(1)] * 4),
+            (2, [F(-1)] * 3 + [F(1, 2), F(1, 2), F(3)] + [F(5)] * 3),
+            (3, [F(0), F(1), F(2), F(3), F(4), F(5), F(6), F(7), F(8)])]           # un-clamped, uniform
+    if run.tier == 'thorough':
+        nets.append((4, [F(0)] * 5 + [F(1, 5), F(2, 5), F(2, 5), F(2, 5), F(7, 10)] + [F(1)] * 5))
+    fb, fall, fone = m.func('helpers.basis_function'), m.func('helpers.basis_function_all'), m.func('helpers.basis_function_one')
+    fd, fdo = m.func('helpers.basis_function_ders'), m.func('helpers.basis_function_ders_one')
+    fbs = m.func('helpers.basis_functions')
+    res = {k: [] for k in ('basis_function', 'basis_function_all', 'basis_function_one', 'basis_function_ders', 'basis_function_ders_one', 'basis_functions')}
+    cnt = dict.fromkeys(res, 0)
+
+    def same(v, want):
+        s = _as_sym(v)
+        return s is not None and s.same(Sym(want))
+
+    def call(fi, args):
+        sk = SK(m, {})
+        sk.exact = True
+        try:
+            return sk.call(fi, args, {}), None
+        except Violation as v:
+            return None, '%s %s' % (v.msg, v.where())
+        except Unsupported as ex:
+            raise AnalysisError('%s: interpreter met an unsupported construct: %s' % (fi.key, ex))
+    for p, kv in nets:
+        n = len(kv) - p - 1
+        N = cdb(kv, p)
+        for k in range(p, n):
+            if kv[k] == kv[k + 1]:
+                continue
+            t = Sym(T, iv=(kv[k], kv[k + 1]))
+            tag = 'degree %d, knots %s, t in (%s, %s)' % (p, [str(x) for x in kv], kv[k], kv[k + 1])
+            # basis_function
+            cnt['basis_function'] += 1
+            out, err = call(fb, [p, list(kv), k, t])
+            if err is None:
+                if not isinstance(out, list) or len(out) != p + 1:
+                    err = 'returns %r' % (out,)
+                else:
+                    tot = Poly()
+                    for j in range(p + 1):
+                        if not same(out[j], N(k - p + j, p, k)):
+                            err = 'N[%d] is %s, the Cox-de Boor recursion gives %r' % (j, repr(out[j])[:120], N(k - p + j, p, k))
+                            break
+                        tot = tot + N(k - p + j, p, k)
+                    if err is None and tot != Poly.const(1):
+                        err = 'the functions do not sum to one'
+            if err:
+                res['basis_function'].append((tag, err))
+            # basis_functions (list variant)
+            cnt['basis_functions'] += 1
+            out2, err = call(fbs, [p, list(kv), [k, k], [t, t]])
+            if err is None and not (isinstance(out2, list) and len(out2) == 2 and all(isinstance(r_, list) and len(r_) == p + 1 and all(same(r_[j], N(k - p + j, p, k)) for j in range(p + 1)) for r_ in out2)):
+                err = 'the list variant does not return basis_function of every (span, parameter) pair'
+            if err:
+                res['basis_functions'].append((tag, err))
+            # basis_function_all
+            cnt['basis_function_all'] += 1
+            out, err = call(fall, [p, list(kv), k, t])
+            if err is None:
+                for d in range(p + 1):
+                    for j in range(d + 1):
+                        try:
+                            v = out[j][d]
+                        except (IndexError, TypeError):
+                            err = 'entry [%d][%d] is missing' % (j, d)
+                            break
+                        if not same(v, N(k - d + j, d, k)):
+                            err = 'entry [function %d][degree %d] is %s, N_{%d,%d} is %r' % (j, d, repr(v)[:100], k - d + j, d, N(k - d + j, d, k))
+                            break
+                    if err:
+                        break
+            if err:
+                res['basis_function_all'].append((tag, err))
+            # basis_function_one for every function index
+            for i in range(n):
+                cnt['basis_function_one'] += 1
+                out, err = call(fone, [p, list(kv), i, t])
+                want = N(i, p, k) if k - p <= i <= k else Poly()
+                if err is None and not same(out, want):
+                    err = 'N_{%d,%d} is %s, the recursion gives %r' % (i, p, repr(out)[:120], want)
+                if err:
+                    res['basis_function_one'].append((tag, err))
+            # derivatives
+            for order in range(0, p + 2):
+                cnt['basis_function_ders'] += 1
+                out, err = call(fd, [p, list(kv), k, t, order])
+                if err is None:
+                    if not isinstance(out, list) or len(out) != order + 1:
+                        err = 'order %d: %r rows' % (order, len(out) if isinstance(out, list) else out)
+                    else:
+                        for j in range(p + 1):
+                            w = N(k - p + j, p, k)
+                            for r in range(order + 1):
+                                if not same(out[r][j], w):
+                                    err = 'order %d: ders[%d][%d] is %s, d^%d N_{%d,%d} / dt^%d is %r' % (order, r, j, repr(out[r][j])[:100], r, k - p + j, p, r, w)
+                                    break
+                                w = w.diff('t')
+                            if err:
+                                break
+                if err:
+                    res['basis_function_ders'].append((tag, err))
+                for i in range(max(0, k - p - 1), min(n, k + 2)):
+                    cnt['basis_function_ders_one'] += 1
+                    out, err = call(fdo, [p, list(kv), i, t, order])
+                    if err is None:
+                        w = N(i, p, k) if k - p <= i <= k else Poly()
+                        if not isinstance(out, list) or len(out) != order + 1:
+                            err = 'order %d: %r entries' % (order, len(out) if isinstance(out, list) else out)
+                        else:
+                            for r in range(order + 1):
+                                if not same(out[r], w):
+                                    err = 'order %d, function %d: ders[%d] is %s, the derivative is %r' % (order, i, r, repr(out[r])[:100], w)
+                                    break
+                                w = w.diff('t')
+                    if err:
+                        res['basis_function_ders_one'].append((tag, err))
+    for name in ('basis_function', 'basis_functions', 'basis_function_all', 'basis_function_one', 'basis_function_ders', 'basis_function_ders_one'):
+        bad = res[name]
+        fi = m.func('helpers.' + name)
+        run.ob('BF3.basis-functions-exact', 'helpers.%s :: %d (knot vector, span%s) cases' % (name, cnt[name], ', function / order' if name.endswith(('one', 'ders')) else ''), not bad,
+               'equal to the Cox-de Boor polynomials (their exact derivatives) on the whole span' if not bad else '%s: %s   [%d of %d cases]' % (bad[0][0], bad[0][1], len(bad), cnt[name]),
+               'geomdl/helpers.py:%d in %s' % (fi.node.lineno, fi.key))
